@@ -102,6 +102,14 @@ fn main() {
             let a: Vec<u64> = args[2..8].iter().map(|x| x.parse().unwrap()).collect();
             println!("{}", cvh::dir::twin_trace(a[0] as usize, a[1] as usize, a[2] as usize, a[3], a[4] as usize, a[5] == 1));
         }
+        "run" => {
+            for case in start..cases {
+                let mut rng = Rng::new(seed.wrapping_mul(1_000_003).wrapping_add(case) ^ 0x4E17);
+                let mut line = cvh::run::gen_case(&mut rng, thorough, case);
+                line["case"] = json!(case); line["gen"] = json!({"seed": seed, "case": case, "thorough": thorough});
+                let mut o = out.lock(); writeln!(o, "{}", line).unwrap();
+            }
+        }
         "proc" => {
             for case in start..cases {
                 let mut rng = Rng::new(seed.wrapping_mul(1_000_003).wrapping_add(case) ^ 0x9A0C);
